@@ -26,7 +26,7 @@ ENVQ = CORE + 'Environment'
 
 def run(cx: Cx):
     # ------------------------------------------------------------ has_component (instance and class level)
-    for q, field in ((CORE + 'Agent.has_component', 'components'), (CORE + '_MetaAgent.has_class_component', '_components')):
+    for q, field in ((CORE + 'Agent.has_component', 'components'),):
         fn = cx.fn(q)
         comps = Attr(Sym(fn.params[0]), field)
         va = Sym('*' + fn.vararg) if fn.vararg else None
@@ -185,6 +185,8 @@ def run(cx: Cx):
         cx.ok('R-GUARD', 'get_agents: fresh list, joining order, has_component(*args) template filter, tag filter iff tag is not None',
               where=cx.where(ga), function=ga.qualname, paths=n)
     check_pure(cx, ga.qualname)
+    from .common import check_result_fresh
+    check_result_fresh(cx, ga.qualname)
 
     # ------------------------------------------------------------ get_random_agent / shuffle
     rng = Attr(Attr(self_s, 'model'), 'random')
